@@ -181,6 +181,13 @@ def hex_blocks(rng: random.Random, w: int, sizes: List[int], ntrees: int, full: 
     return B
 
 
+def buffer_blocks(rng: random.Random, w: int) -> List[Block]:
+    """only the byte-buffer helpers of hex/strings.fj (they are also part of C09's statement) plus what they are built on"""
+    keep = ("buf_input_line", "buf_print_text", "buf_print_line", "buf_fill", "buf_copy")
+    B = [b for b in hex_blocks(rng, w, [2], 0, False) if b.key in keep or b.name in ("hex.read_byte(2)", "hex.write_byte(2)", "hex.ptr_inc")]
+    return B
+
+
 def bit_blocks(rng: random.Random, w: int, small: bool) -> List[Block]:
     B: List[Block] = []
 
